@@ -538,7 +538,7 @@ def run(ctx):
     orig_render = sc.render
     sc.render = lambda schema, fmt, package: render_with_intersections(schema, fmt, package, orig_render)
     orig_yaml = sc.pipeline_yaml
-    sc.pipeline_yaml = lambda fmt, path, package, go_flags, extra=(): orig_yaml(fmt, path, package, go_flags, _langs(int(package[1:5])))
+    sc.pipeline_yaml = lambda fmt, path, package, go_flags, extra=(), aux=(): orig_yaml(fmt, path, package, go_flags, _langs(int(package[1:5])), aux)
     try:
         sc.generate(ctx, batch, None, EXTRA_LANGUAGES, formats)
     finally:
